@@ -41,10 +41,18 @@ static const char *arr_preview(const uint64_t *a, size_t n) {
 
 /* choose length + model and build an input for codec c */
 typedef struct {
-    uint64_t *a; /* exact-size heap block */
+    uint64_t *a;    /* ends exactly at the end of a heap block; 16-byte aligned or 8-mod-16 */
+    uint64_t *base; /* what to free */
     size_t n;
     int model;
 } input_t;
+/* (re)allocate in->a for n elements, alternating the alignment of the first element */
+static void input_alloc(input_t *in, size_t n, uint64_t salt) {
+    size_t shift = (salt >> 5) & 1;
+    in->base = malloc((n + shift) * 8);
+    in->a = in->base + shift;
+    in->n = n;
+}
 static void make_input(const codec_t *c, uint64_t idx, rng_t *r, input_t *in) {
     size_t maxlen = g_param[0] ? g_param[0] : 4097;
     size_t n = gen_len(r, maxlen);
@@ -57,11 +65,22 @@ static void make_input(const codec_t *c, uint64_t idx, rng_t *r, input_t *in) {
     if (c->domain == DOM_GROUP && n > 64) n = 1 + n % 64;
     uint64_t *tmp = malloc((n ? n : 1) * 8);
     gen_array_model(r, model, tmp, n, (unsigned)c->elembits);
+    if (n >= 2 && rng_chance(r, 1, 6)) {
+        /* sprinkle values equal to derived quantities (count, range, extremes, sums) */
+        uint64_t mn = tmp[0], mx = tmp[0];
+        for (size_t i = 1; i < n; i++) { if (tmp[i] < mn) mn = tmp[i]; if (tmp[i] > mx) mx = tmp[i]; }
+        uint64_t derived[10] = {n, n - 1, n + 1, mx - mn, mn + 1, mx - 1, tmp[0] + tmp[n - 1], (uint64_t)n * 8, mn ^ mx, (mx - mn) >> 1};
+        int k = 1 + (int)rng_below(r, 3);
+        for (int j = 0; j < k; j++) {
+            size_t pos = rng_below(r, n);
+            tmp[pos] = derived[rng_below(r, 10)];
+        }
+        STAT_INC("arrays_with_derived_quantities");
+    }
     n = shape_domain(c, r, tmp, n, model);
-    in->a = malloc(n * 8);
+    input_alloc(in, n, idx * 2654435761u + (uint64_t)model);
     memcpy(in->a, tmp, n * 8);
     free(tmp);
-    in->n = n;
     in->model = model;
 }
 
@@ -156,7 +175,9 @@ static void c02_case(uint64_t idx, rng_t *r) {
     digest_u64(&g_dig, g);
     digest_bytes(&g_dig, dst, ret);
     uint8_t *enc = place_encoded(dst, ret, 0x11);
-    uint64_t *out = malloc(n * 8);
+    size_t oshift = (g >> 6) & 1; /* output 16-byte aligned or 8 mod 16; its end stays exact */
+    uint64_t *outbase = malloc((n + oshift) * 8);
+    uint64_t *out = outbase + oshift;
     memset(out, 0xCD, n * 8);
     g_ctx = c->decname;
     size_t rn = c->decode(enc, ret, &info, out, n);
@@ -239,12 +260,12 @@ static void c02_case(uint64_t idx, rng_t *r) {
     if (want_sample() && nontrivial(in.a, n)) {
         sample("{\"codec\":\"%s\",\"model\":\"%s\",\"n\":%zu,\"encoded_bytes\":%zu,\"input\":\"%s\"}", c->name, AM_NAMES[in.model], n, ret, arr_preview(in.a, n));
     }
-    free(out);
+    free(outbase);
     placed_free(enc);
 out:
     g_sub[0] = 0;
     free(dst);
-    free(in.a);
+    free(in.base);
 }
 
 /* =================================================================== C03 */
@@ -294,19 +315,17 @@ static void c03_case(uint64_t idx, rng_t *r) {
     } else if (codec_is_adaptive(c) && c->param == -1 && rng_chance(r, 1, 2) && (g_param[1])) {
         /* sampler-aliasing input: periodic, > 10000 elements */
         size_t n = 10001 + rng_below(r, 2000);
-        free(in.a);
-        in.a = malloc(n * 8);
+        free(in.base);
+        input_alloc(&in, n, g);
         gen_array_model(r, AM_PERIODIC, in.a, n, 64);
-        in.n = n;
         in.model = AM_PERIODIC;
     }
-    if (!strcmp(c->name, "adaptive.DICT") && g_param[1] && (idx % g_param[1]) == 1) {
+    if ((!strcmp(c->name, "adaptive.DICT") || !strncmp(c->name, "dict", 4)) && g_param[1] && (idx % g_param[1]) == 1) {
         /* the adaptive bound is only approached by a large all-unique dictionary (3-byte indices) */
         size_t n = 66000 + rng_below(r, 3000);
-        free(in.a);
-        in.a = malloc(n * 8);
+        free(in.base);
+        input_alloc(&in, n, g);
         for (size_t i = 0; i < n; i++) in.a[i] = (1ULL << 63) | (rng_next(r) << 20) | i;
-        in.n = n;
         in.model = AM_NMODELS;
     }
     size_t n = in.n;
@@ -316,7 +335,7 @@ static void c03_case(uint64_t idx, rng_t *r) {
     size_t N = c->bound(in.a, n);
     if (N == 0 || N > (1ull << 31)) {
         viol(KEY(key, c, "sizing-function-returned-nonsense"), "n=%zu N=%zu", n, N);
-        free(in.a);
+        free(in.base);
         return;
     }
     gbuf_t gb;
@@ -345,7 +364,7 @@ static void c03_case(uint64_t idx, rng_t *r) {
     if (want_sample()) sample("{\"codec\":\"%s\",\"n\":%zu,\"advertised\":%zu,\"written\":%zu,\"sizing\":\"%s\"}", c->name, n, N, ret, c->boundname);
     STAT_INC("c03_encodes");
     gbuf_free(&gb);
-    free(in.a);
+    free(in.base);
 }
 
 /* =================================================================== C13 */
@@ -364,8 +383,8 @@ static void c13_case(uint64_t idx, rng_t *r) {
     if (rng_chance(r, 1, 4) && c->domain != DOM_GROUP) { /* block-edge lengths */
         static const size_t edges[] = {127, 128, 129, 130, 255, 256, 257, 258};
         size_t n = edges[rng_below(r, 8)];
-        free(in.a);
-        in.a = malloc(n * 8);
+        free(in.base);
+        input_alloc(&in, n, g);
         gen_array_model(r, (int)rng_below(r, AM_NMODELS), in.a, n, (unsigned)c->elembits);
         in.n = shape_domain(c, r, in.a, n, AM_MIXTURE);
     }
@@ -378,7 +397,7 @@ static void c13_case(uint64_t idx, rng_t *r) {
     size_t ret = c->encode(dst, in.a, n, &info);
     if (ret == 0) {
         free(dst);
-        free(in.a);
+        free(in.base);
         return; /* C02's subject */
     }
     uint8_t *enc = place_encoded(dst, ret, 0x3C);
@@ -397,7 +416,11 @@ static void c13_case(uint64_t idx, rng_t *r) {
         size_t cap = caps[k];
         if (cap > n) continue;
         gbuf_t gb;
+        /* output arrays that are element-aligned but not 16-byte aligned (8 mod 16, or 4/8/12 for 32-bit elements) */
+        g_gbuf_off = ((g >> 3) & 1) ? esz * (1 + ((g >> 4) % (16 / esz - 1))) : 0;
+        if (g_gbuf_off) STAT_INC("c13_outputs_not_16_byte_aligned");
         gbuf_alloc(&gb, cap * esz, 4096, (uint8_t)(cap * 13 + 5));
+        g_gbuf_off = 0;
         memset(gb.p, 0xCD, cap * esz);
         g_ctx = c->decname;
         snprintf(g_sub, sizeof g_sub, "codec=%s n=%zu capacity=%zu", c->name, n, cap);
@@ -431,10 +454,46 @@ static void c13_case(uint64_t idx, rng_t *r) {
     }
     placed_free(enc);
     free(dst);
-    free(in.a);
+    free(in.base);
 }
 
 #include "drv_array_meta.h"
+
+/* runs whose length needs 4..5 tagged bytes (>= 2^24 identical values): untouched calloc pages keep this cheap */
+static void giant_run_case(void) {
+    static const size_t lens[] = {16777215, 16777216, 16777217, 16777216 + 70000};
+    char key[200];
+    for (int k = 0; k < 4; k++) {
+        size_t n = lens[k];
+        uint64_t *a = calloc(n, 8);
+        if (!a) {
+            STAT_INC("giant_run_skipped_no_memory");
+            return;
+        }
+        a[n - 1] = k == 3 ? 7 : 0; /* a second short run in the last variant */
+        const codec_t *c = NULL;
+        for (size_t i = 0; i < NCODECS; i++) if (!strcmp(CODECS[i].name, "rle")) c = &CODECS[i];
+        g_ctx = "varintRLESize";
+        size_t N = varintRLESize(a, n);
+        varintRLEMeta am;
+        memset(&am, 0, sizeof am);
+        varintRLEAnalyze(a, n, &am);
+        gbuf_t gb;
+        gbuf_alloc(&gb, N, 64, 0x21);
+        varintRLEMeta m;
+        memset(&m, 0, sizeof m);
+        g_ctx = "varintRLEEncode";
+        snprintf(g_sub, sizeof g_sub, "giant run n=%zu advertised=%zu", n, N);
+        size_t ret = varintRLEEncode(gb.p, a, n, &m);
+        if (gbuf_check(&gb) != -1 || ret > N) viol(KEY(key, c, "write-past-advertised-size"), "run of %zu identical values: varintRLESize %zu, encoder wrote %zu", n, N, ret);
+        else if (ret != N || am.encodedSize != ret || m.encodedSize != ret) viol(KEY(key, c, !strcmp(PROP, "C03") ? "exact-predictor-differs-from-written" : "RLE.Analyze"), "run of %zu identical values: Size %zu Analyze %zu meta %zu written %zu", n, N, am.encodedSize, m.encodedSize, ret);
+        if (m.runCount != (k == 3 ? 2u : 1u) || m.count != n) viol(KEY(key, c, "RLE.meta.runCount"), "n=%zu runs %zu", n, m.runCount);
+        g_sub[0] = 0;
+        gbuf_free(&gb);
+        free(a);
+        STAT_INC("giant_run_cases");
+    }
+}
 
 int main(int argc, char **argv) {
     parse_args(argc, argv);
@@ -448,12 +507,14 @@ int main(int argc, char **argv) {
         CASE_LOOP(c02_case);
     } else if (!strcmp(g_mode, "c03")) {
         PROP = "C03";
+        if (g_param[2] && g_shard == 0 && g_from == 0 && g_only < 0) giant_run_case();
         CASE_LOOP(c03_case);
     } else if (!strcmp(g_mode, "c13")) {
         PROP = "C13";
         CASE_LOOP(c13_case);
     } else if (!strcmp(g_mode, "c16")) {
         PROP = "C16";
+        if (g_param[2] && g_shard == 0 && g_from == 0 && g_only < 0) giant_run_case();
         CASE_LOOP(c16_case);
     } else if (!strcmp(g_mode, "c06")) {
         PROP = "C06";
